@@ -1052,9 +1052,9 @@ def shipped_defs(wd):
 
 
 PROPS = {
-    "C01": dict(family="c01", judge=judge_c01, probes=("enc", "len", "dump"), title="Encoded bytes are exactly the RFC 6733 wire format"),
-    "C02": dict(family="c02", extra=shipped_defs, judge=judge_c02, probes=("rt",), title="Encode then decode returns the same message"),
-    "C03": dict(family="c03", judge=judge_c03, probes=("dec", "decat", "deca", "decg", "tables"), expect_keys=["tables", 'reason_e_addr', 'reason_e_app', 'reason_e_cmd', 'reason_e_eof', 'reason_e_mismatch', 'reason_e_short', 'reason_e_unknownAvp', 'reason_e_utf8', 'reason_ok_lie0', 'reason_ok_lie1', 'refused_too_deep', 'deca_ok', 'deca_err', 'decg_ok', 'decg_err', 'full', 'notfull'], title="Decoding is faithful"),
+    "C01": dict(both_builds=True, family="c01", judge=judge_c01, probes=("enc", "len", "dump"), title="Encoded bytes are exactly the RFC 6733 wire format"),
+    "C02": dict(both_builds=True, family="c02", extra=shipped_defs, judge=judge_c02, probes=("rt",), title="Encode then decode returns the same message"),
+    "C03": dict(both_builds=True, family="c03", judge=judge_c03, probes=("dec", "decat", "deca", "decg", "tables"), expect_keys=["tables", 'reason_e_addr', 'reason_e_app', 'reason_e_cmd', 'reason_e_eof', 'reason_e_mismatch', 'reason_e_short', 'reason_e_unknownAvp', 'reason_e_utf8', 'reason_ok_lie0', 'reason_ok_lie1', 'refused_too_deep', 'deca_ok', 'deca_err', 'decg_ok', 'decg_err', 'full', 'notfull'], title="Decoding is faithful"),
     "C04": dict(family="c04", extra=shipped_defs, judge=judge_c04, probes=("decq", "envchild"), expect_keys=['reason_e_addr', 'reason_e_app', 'reason_e_cmd', 'reason_e_eof', 'reason_e_mismatch', 'reason_e_short', 'reason_e_unknownAvp', 'reason_e_utf8', 'reason_e_deep', 'reason_ok', 'depth_32'], title="The decoder is total"),
     "C05": dict(family="c05", judge=judge_c05, probes=("ench", "encw", "senc"), expect_keys=["senc_ok", "senc_err", "ench_ok", "ench_err_unrepresentable", "encw_ok", "encw_err", "encw_err_unrepresentable", "encw_fault_inside_frame", "encw_mode_1_2_zero", "encw_mode_0_0_err"], title="Encoding never reports success for a frame it did not fully produce"),
     "C06": dict(family="c06", judge=judge_c06, probes=("sdec", "sdecnt", "senc"), title="Stream framing is independent of how bytes are segmented"),
@@ -1065,9 +1065,9 @@ PROPS = {
     "C13": dict(family="c13", judge=judge_c13, probes=("tls", "tlsq", "tlsrude"), title="TLS settings are honoured exactly"),
     "C11": dict(family="c11", judge=judge_cli, probes=("cli", "ctcp", "clim"), model_input=cli_model_input, title="Client delivers each answer to the request it belongs to"),
     "C12": dict(family="c12", judge=judge_cli, probes=("cli", "ctcp", "cliswitch", "clim"), expect_keys=["ev_stop", "ev_refused", "ev_rm", "ev_dl", "future_err", "future_got", "future_pending", "late_err", "tcp_scenarios"], model_input=cli_model_input, title="Every response future eventually completes"),
-    "C14": dict(family="c14", judge=judge_c14, probes=("dget", "dbyname", "dapp", "dcmd"), title="Dictionary lookups reflect exactly what was loaded, latest wins"),
-    "C15": dict(family="c15", extra=shipped_defs, judge=judge_c15, probes=("dec", "dget", "dbyname", "rt"), title="AVPs are typed by their exact dictionary entry or rejected"),
-    "C16": dict(family="c16", extra=shipped_defs, judge=judge_c16, probes=("add_by_name", "avp_name", "enc", "dump", "len"), title="Building an AVP by name follows the dictionary; failure changes nothing"),
-    "C17": dict(family="c17", judge=judge_c17, probes=("fx", "sweep", "psweep"), title="Four-octet data types are exact bijections"),
-    "C18": dict(family="c18", judge=judge_c18, probes=("dump", "get", "acc"), title="AVP lookup and typed accessors agree with the message content"),
+    "C14": dict(both_builds=True, family="c14", judge=judge_c14, probes=("dget", "dbyname", "dapp", "dcmd"), title="Dictionary lookups reflect exactly what was loaded, latest wins"),
+    "C15": dict(both_builds=True, family="c15", extra=shipped_defs, judge=judge_c15, probes=("dec", "dget", "dbyname", "rt"), title="AVPs are typed by their exact dictionary entry or rejected"),
+    "C16": dict(both_builds=True, family="c16", extra=shipped_defs, judge=judge_c16, probes=("add_by_name", "avp_name", "enc", "dump", "len"), title="Building an AVP by name follows the dictionary; failure changes nothing"),
+    "C17": dict(both_builds=True, family="c17", judge=judge_c17, probes=("fx", "sweep", "psweep"), title="Four-octet data types are exact bijections"),
+    "C18": dict(both_builds=True, family="c18", judge=judge_c18, probes=("dump", "get", "acc"), title="AVP lookup and typed accessors agree with the message content"),
 }
